@@ -30,7 +30,27 @@ def dhunks? : List String → Option (List Hunks.Hunk)
     | _, _, _, _, _, _ => none
   | _ => none
 
+/-- records `start end text replace` -/
+def spans? : List String → Option (List (Nat × Nat × Bytes × Bytes))
+  | [] => some []
+  | s :: e :: t :: r :: rest =>
+    match s.toNat?, e.toNat?, ofHex t, ofHex r, spans? rest with
+    | some s, some e, some t, some r, some xs => some ((s, e, t, r) :: xs)
+    | _, _, _, _, _ => none
+  | _ => none
+
+def showGeom : Hunks.Geom → String
+  | .skip => "skip"
+  | .panic => "panic"
+  | .ok h how => s!"{showHunk h} {showHow how}"
+
 def dispatch : List String → Option String
+  | "hunkgeoms" :: c :: rest =>
+    -- all hunks of one file in one request: `G item ; item ; …`
+    match ofHex c, spans? rest with
+    | some c, some xs =>
+      some ("G " ++ " ; ".intercalate (xs.map (fun x => showGeom (Hunks.hunkGeomAt c x.1 x.2.1 x.2.2.1 x.2.2.2))))
+    | _, _ => some "bad-req"
   | "findmatches" :: c :: vs =>
     match ofHex c, hexList vs with
     | some c, some vs => some (" ".intercalate ("m" :: (Matcher.findMatches vs c).map showMatch))
